@@ -24,6 +24,10 @@ pub struct ExecOpts {
     pub trace: bool,
     /// send each distinct module only once per process (workers); off in the coordinator
     pub code_dedup: bool,
+    /// print `B` (flushed) before each operation: the coordinator's watchdog counts CPU time since the last sign of
+    /// life, and a long history over a project with very large files legitimately takes longer than the limit as a
+    /// whole (144 steps, 205 builds, 23 s) while no single operation does
+    pub heartbeat: bool,
 }
 
 #[derive(serde::Serialize, serde::Deserialize, Clone, Debug)]
@@ -310,6 +314,11 @@ fn execute_history(run: &Run, opts: &ExecOpts) -> Outcome {
     }
 
     'ops: for (i, op) in run.ops.iter().enumerate() {
+        if opts.heartbeat {
+            let mut o = stdout.lock();
+            let _ = writeln!(o, "B op");
+            let _ = o.flush();
+        }
         if opts.progress {
             let mut o = stdout.lock();
             let _ = writeln!(o, "op {}", i);
@@ -724,6 +733,10 @@ fn execute_c10(run: &Run, opts: &ExecOpts) -> Outcome {
     let entry = &run.project.entry;
     let mut results: Vec<FreshResult> = vec![];
     for (i, v) in run.variants.iter().enumerate() {
+        if opts.heartbeat {
+            println!("B variant");
+            let _ = std::io::stdout().flush();
+        }
         if opts.progress {
             println!("op {}", i);
             let _ = std::io::stdout().flush();
